@@ -49,7 +49,7 @@ CONFIG = {
                        "crash points; the snapshot function (sim/snapshot.py). Sampled, not exhaustive, over "
                        "histories; exhaustive over line-level crash points of each tested step up to the cap."),
         "quick_runs": 1800,
-        "thorough_runs": 40000,
+        "thorough_runs": 12000,
         "quick_wall_cap": 240,
         "thorough_wall_cap": 3000,
         "block": 4,
